@@ -21,8 +21,8 @@ def incremental(pid, tier, replay):
     if replay:
         return engine.engine_replay(pid, replay)
     fams = _fams(
-        [dict(fam="inc", K=6, CH=4), dict(fam="inc2", K=4, CH=4), dict(fam="partial", K=4, CH=4), dict(fam="rand", K=12, CH=4), dict(fam="editrun", K=2, CH=2), dict(fam="restat", K=16, CH=4), dict(fam="flip", K=3, CH=3), dict(fam="hsw", K=1, CH=1)],
-        [dict(fam="inc", K=30, CH=12), dict(fam="inc2", K=20, CH=8), dict(fam="partial", K=20, CH=8), dict(fam="rand", K=80, CH=6), dict(fam="editrun", K=10, CH=4), dict(fam="restat", K=120, CH=8), dict(fam="flip", K=12, CH=8), dict(fam="hsw", K=1, CH=1)], tier)
+        [dict(fam="inc", K=6, CH=4), dict(fam="inc2", K=4, CH=4), dict(fam="partial", K=4, CH=4), dict(fam="rand", K=12, CH=4), dict(fam="editrun", K=2, CH=2), dict(fam="restat", K=16, CH=4), dict(fam="flip", K=3, CH=3), dict(fam="hsw", K=1, CH=1), dict(fam="faildep", K=3, CH=1)],
+        [dict(fam="inc", K=30, CH=12), dict(fam="inc2", K=20, CH=8), dict(fam="partial", K=20, CH=8), dict(fam="rand", K=80, CH=6), dict(fam="editrun", K=10, CH=4), dict(fam="restat", K=120, CH=8), dict(fam="flip", K=12, CH=8), dict(fam="hsw", K=1, CH=1), dict(fam="faildep", K=20, CH=1)], tier)
     q = tier == "quick"
     design = None
     if pid == "C03":
@@ -611,7 +611,7 @@ def crashes(pid, tier, replay):
 def discovered(pid, tier, replay):
     if replay:
         return engine.engine_replay(pid, replay)
-    fams = _fams([dict(fam="twin", K=6, CH=4)], [dict(fam="twin", K=60, CH=16)], tier)
+    fams = _fams([dict(fam="twin", K=6, CH=4), dict(fam="faildep", K=3, CH=1)], [dict(fam="twin", K=60, CH=16), dict(fam="faildep", K=20, CH=1)], tier)
     return engine.engine_check(pid, fams, tier, maxruns=8 if tier == "quick" else 64, props=["C10"])
 
 
